@@ -363,6 +363,17 @@ func EmitPackage(set *Set, pkg *Package, checks int) (helper, test string) {
 		}
 	}
 	fmt.Fprintf(&t, "\t})\n\tfmt.Printf(\"VERIF-C05-STATS pkg=%s evaluations=%%d messages=%d structs=%d enums=%d\\n\", evals)\n}\n", pkg.ID, len(msgs), len(structs), len(enums))
+	// C02: the generated struct decoders and message readers on hostile input
+	fmt.Fprintf(&t, "\nfunc TestVerifC02(t *testing.T) {\n\ttried := 0\n\trapid.Check(t, func(rt *rapid.T) {\n\t\ts := gen.RapidSrc{T: rt}\n\t\t_ = s\n")
+	for _, d := range structs {
+		key := pkg.ID + "." + d.Name
+		fmt.Fprintf(&t, "\t\t{\n\t\t\tn := ltest.GenStruct(s, ltest.Registry[%q], 2)\n\t\t\tbuf := buffer.New()\n\t\t\tif _, err := Encode%sTo(buf, VerifNodeTo%s(n)); err != nil {\n\t\t\t\trt.Fatalf(\"VERIF-C02-VIOLATION key=struct-encode-error msg=%s: %%v\", err)\n\t\t\t}\n\t\t\tk, msg := ltest.Hostile(\"Decode%s\", buf.Bytes(), func(b []byte) (int, bool, error) { _, n, err := Decode%s(b); return n, true, err })\n\t\t\ttried += k\n\t\t\tif msg != \"\" {\n\t\t\t\trt.Fatalf(\"VERIF-C02-VIOLATION %%s\", msg)\n\t\t\t}\n\t\t\tk, msg = ltest.Hostile(\"Open%s\", buf.Bytes(), func(b []byte) (int, bool, error) { _ = Open%s(b); return 0, false, nil })\n\t\t\ttried += k\n\t\t\tif msg != \"\" {\n\t\t\t\trt.Fatalf(\"VERIF-C02-VIOLATION %%s\", msg)\n\t\t\t}\n\t\t}\n", key, d.Name, d.Name, d.Name, d.Name, d.Name, d.Name, d.Name)
+	}
+	for _, d := range msgs {
+		key := pkg.ID + "." + d.Name
+		fmt.Fprintf(&t, "\t\t{\n\t\t\tn := ltest.GenMessage(s, ltest.Registry[%q], 2)\n\t\t\tbase := ltest.EncodeNode(n)\n\t\t\tk, msg := ltest.Hostile(\"%s accessors\", base, func(b []byte) (int, bool, error) { _ = VerifRead%s(Open%s(b)); return 0, false, nil })\n\t\t\ttried += k\n\t\t\tif msg != \"\" {\n\t\t\t\trt.Fatalf(\"VERIF-C02-VIOLATION %%s\", msg)\n\t\t\t}\n\t\t\tk, msg = ltest.Hostile(\"Parse%s\", base, func(b []byte) (int, bool, error) { m, n, err := Parse%s(b); if err == nil { _ = VerifRead%s(m) }; return n, true, err })\n\t\t\ttried += k\n\t\t\tif msg != \"\" {\n\t\t\t\trt.Fatalf(\"VERIF-C02-VIOLATION %%s\", msg)\n\t\t\t}\n\t\t}\n", key, d.Name, d.Name, d.Name, d.Name, d.Name, d.Name)
+	}
+	fmt.Fprintf(&t, "\t})\n\tfmt.Printf(\"VERIF-C02-STATS pkg=%s tried=%%d structs=%d messages=%d\\n\", tried)\n}\n", pkg.ID, len(structs), len(msgs))
 	test = t.String()
 	_ = checks
 	return helper, test
